@@ -6,7 +6,7 @@ and list the mutants no check notices.  Those are then triaged by hand: equivale
 usage: tools/mutate.py list                      -> counts per file / operator
        tools/mutate.py run <out.jsonl> [--files REGEX] [--ops a,b,..] [--max N] [--seed S] [--jobs J]
        tools/mutate.py show <out.jsonl>          -> the silent ones
-Nothing here is a registered check; it is a development tool (DESIGN 12.7)."""
+Nothing here is a registered check; it is a development tool (DESIGN 12.5c)."""
 import difflib, glob, json, os, random, re, sys, tempfile
 from concurrent.futures import ThreadPoolExecutor
 
